@@ -19,6 +19,9 @@ LEVEL_TEXT = ("static: decides, for every allocation site and every CFG path inc
 # fifth-round additions
 TECHNIQUE += "; " + "path search from a successful hash-table insert to a release of the inserted object with the table's remove as barrier (R-C14-UNDO); deviance rule over all allocation-to-member stores (R-C14-ALLOCCHK)"
 LEVEL_TEXT += " " + '(UNDO) an object released on a failure path was first taken out of the hash table it had been put into; (ALLOCCHK) the result of an allocation stored into a member of an object is tested in the storing function (77 sites).'
+# sixth-round additions
+TECHNIQUE += "; " + 'path searches from a parameter kept in a member to a destructor of that member (R-C14-BORROWED) and from a filled member to a bare ares_free of the object (R-C14-SHELLFREE)'
+LEVEL_TEXT += " " + "(BORROWED) an object keeping one of the function's parameters in a member is not handed to a destructor of that member unless the member was reset; (SHELLFREE) an object whose member holds an allocation is not released with a bare ares_free."
 LEVEL_NOTE = ("trusts clang CFG + extractor; ownership transfer through struct fields is inferred from which fields the library ever releases; five frozen "
               "exemptions (take-back idioms, correlated count/pointer) are listed with reasons in tool/py/ownrules.py")
 DESIGN_REF = "DESIGN.md §6/C14"
@@ -651,6 +654,167 @@ def r_allocchk(prog, R):
     r.info["sites"] = n
 
 
+_REL = ("ares_free", "ares_dns_record_destroy", "ares_buf_destroy", "ares_llist_destroy", "ares_array_destroy", "ares_free_hostent", "ares_freeaddrinfo")
+
+
+def _releases_member(prog, g, k, fld):
+    """g releases the member `fld` of its k-th parameter"""
+    if k >= len(g.params):
+        return False
+    pn = g.params[k]["n"]
+    names = {pn}
+    for b, i, el in g.elements():
+        if el["k"] == "decl":
+            for v in el["vars"]:
+                if v.get("init") is not None and is_var(strip(v["init"]), pn):
+                    names.add(v["n"])
+        if el["k"] == "asg" and el["e"]["op"] == "=" and is_var(strip(el["e"].get("r")), pn) and is_var(strip(el["e"]["l"])):
+            names.add(strip(el["e"]["l"])["n"])
+    for b, i, c in g.calls():
+        if c.get("callee") in _REL and c.get("args"):
+            a = strip(c["args"][0])
+            if a is not None and a.get("k") == "mem" and a["f"] == fld and is_var(strip(a["b"])) and strip(a["b"])["n"] in names:
+                return True
+    return False
+
+
+def r_borrowed(prog, R):
+    r = R.rule("R-C14-BORROWED", "an object that keeps one of the function's pointer parameters in a member (entry->dnsrec = qresp) is not handed to a destructor that releases that member "
+               "unless the member was reset first: until the function succeeds the parameter still belongs to the caller, which releases it again on failure", floor=10,
+               analysis="path search from the store of a parameter into a member to a call that releases that member of the same object, the reset of the member as barrier")
+    n = 0
+    for f in sorted(prog.funcs.values(), key=lambda x: x.key):
+        if not f.file.startswith("src/lib/") or f.file.startswith(("src/lib/dsa/", "src/lib/str/")):
+            continue
+        if (f.retw or f.ret) not in ("ares_status_t", "int"):
+            continue
+        for b, i, el in f.elements():
+            if el["k"] != "asg" or el["e"]["op"] != "=":
+                continue
+            l, rr = strip(el["e"]["l"]), strip(el["e"].get("r"))
+            if l is None or l.get("k") != "mem" or not is_var(strip(l["b"])) or strip(l["b"]).get("vk") != "local":
+                continue
+            if not (is_var(rr) and rr.get("vk") == "param" and (rr.get("ty") or "").rstrip().endswith("*")):
+                continue
+            obj, fld = strip(l["b"])["n"], l["f"]
+            sites = []
+            for b2, i2, c in f.calls():
+                for k, a in enumerate(c.get("args", [])):
+                    if is_var(strip(a), obj):
+                        t = prog.resolve(f, c)
+                        if t is not None and _releases_member(prog, t, k, fld):
+                            sites.append((b2, i2, c, t))
+            n += 1
+            if not sites:
+                r.ok("fn=%s %s->%s = %s: the object is not handed to a destructor of that member here" % (f.name, obj, fld, rr["n"]), f.loc(el), nontrivial=False)
+                continue
+            reset = lambda e2, obj=obj, fld=fld: e2["k"] == "asg" and is_null(e2["e"].get("r")) and strip(e2["e"]["l"]).get("k") == "mem" and strip(e2["e"]["l"])["f"] == fld and is_var(strip(strip(e2["e"]["l"])["b"]), obj)
+            pred = reach_avoiding(f, b.id, (), reset, i + 1)
+            for b2, i2, c, t in sites:
+                k_ = "fn=%s %s->%s = %s not released through %s" % (f.name, obj, fld, rr["n"], t.name)
+                reach = (b2.id in pred) or (b2.id == b.id and i2 > i)
+                if reach:
+                    blk = f.blocks[b2.id]
+                    lo = i + 1 if b2.id == b.id and b2.id not in pred else 0
+                    if any(reset(blk.els[j]) for j in range(lo, i2)):
+                        reach = False
+                if reach:
+                    r.viol(k_, f.name, f.loc(c["ln"]), "%s stores its parameter '%s' in %s->%s and can hand %s to %s, which releases that member, without having reset it: the caller still owns '%s' "
+                           "(ownership passes on success only), uses it afterwards and releases it a second time" % (f.name, rr["n"], obj, fld, obj, t.name, rr["n"]))
+                else:
+                    r.ok(k_, f.loc(c["ln"]))
+    r.info["parameter_in_member_with_destructor"] = n
+
+
+_MAKERS = ("dup", "create", "alloc", "strdup", "malloc", "new")
+
+
+def r_shellfree(prog, R):
+    r = R.rule("R-C14-SHELLFREE", "an object one of whose members already holds an allocation is not released with a bare ares_free(): between the store of an allocation result into "
+               "obj->member (on the path on which it is non-NULL) and ares_free(obj) the member is released, or the object goes through its destructor", floor=5,
+               analysis="path search from `obj->member = <maker>()` to ares_free(obj), the member's release as barrier, NULL edges of tests of that member pruned")
+    n = 0
+    for f in sorted(prog.funcs.values(), key=lambda x: x.key):
+        if not f.file.startswith("src/lib/") or f.file.startswith(("src/lib/dsa/",)):
+            continue
+        frees = [(b, i, c) for b, i, c in f.calls() if c.get("callee") == "ares_free" and c.get("args") and is_var(strip(c["args"][0]))]
+        if not frees:
+            continue
+        fills = []
+        for b, i, el in f.elements():
+            if el["k"] == "asg" and el["e"]["op"] == "=":
+                l, rr = strip(el["e"]["l"]), strip(el["e"].get("r"))
+                if l is None or l.get("k") != "mem" or not is_var(strip(l["b"])) or rr is None or rr.get("k") != "call":
+                    continue
+                c0 = f.call_by_id(rr["id"])[2] if rr.get("ref") else rr
+                cn = c0.get("callee") or ""
+                if any(m in cn for m in _MAKERS) and (l.get("ty") or "").rstrip().endswith("*"):
+                    fills.append((b, i, el, l, cn, []))
+            elif el["k"] == "call":
+                cn = el["e"].get("callee") or ""
+                if not any(m in cn for m in _MAKERS):
+                    continue
+                tm = prog.resolve(f, el["e"])
+                if tm is None or not tm.file.startswith("src/lib/") or (tm.retw or tm.ret) != "ares_status_t":
+                    continue      # only the library's own makers: their status convention is known
+                for a in el["e"].get("args", []):
+                    a2 = strip(a)
+                    if a2 is not None and a2.get("k") == "un" and a2["op"] == "&" and strip(a2["e"]) is not None and strip(a2["e"]).get("k") == "mem" and is_var(strip(strip(a2["e"])["b"])):
+                        # filled through an out-parameter: only on the edge on which the maker reported success
+                        fe = []
+                        for g in call_result_branches(f, cn):
+                            if g["call"].get("id") == el["e"].get("id"):
+                                pe = status_pass_edge(g)
+                                if pe:
+                                    fe.append((g["block"].id, pe[1]))
+                        fills.append((b, i, el, strip(a2["e"]), cn, fe))
+        for b, i, el, l, cn, fail_edges in fills:
+            obj, lt = strip(l["b"])["n"], render(l)
+            targets = [(b2, i2, c) for b2, i2, c in frees if strip(c["args"][0])["n"] == obj]
+            if not targets:
+                continue
+            n += 1
+            avoid = list(fail_edges)
+            for blk in f.blocks.values():
+                br = f.branch(blk)
+                if not br:
+                    continue
+                for pol, tgt in ((True, br[1]), (False, br[2])):
+                    if tgt is None:
+                        continue
+                    ats = atoms(br[0], pol)
+                    for cc, p_ in ats:
+                        op, l2, r2 = norm_cmp(cc, p_)
+                        if render(strip(l2)) == lt and (op == "false" or (op == "==" and r2 is not None and is_null(r2))) and len(ats) == 1:
+                            avoid.append((blk.id, tgt))
+
+            def barrier(e2, lt=lt, obj=obj):
+                if e2["k"] == "asg" and render(strip(e2["e"]["l"])) == lt:
+                    return True
+                if e2["k"] == "call":
+                    if any(render(strip(a)) == lt for a in e2["e"].get("args", [])) and ((e2["e"].get("callee") or "") == "ares_free" or (e2["e"].get("callee") or "").endswith(("_free", "_destroy", "_free_string"))):
+                        return True
+                    if e2["e"].get("callee") != "ares_free" and any(is_var(strip(a), obj) for a in e2["e"].get("args", [])) and (e2["e"].get("callee") or "").endswith(("_free", "_destroy", "free_query", "_cb")):
+                        return True
+                return False
+            pred = reach_avoiding(f, b.id, avoid, barrier, i + 1)
+            hit = None
+            for b2, i2, c in targets:
+                ok_reach = (b2.id in pred) or (b2.id == b.id and i2 > i)
+                if ok_reach:
+                    blk = f.blocks[b2.id]
+                    lo = i + 1 if (b2.id == b.id and b2.id not in pred) else 0
+                    if not any(barrier(blk.els[j]) for j in range(lo, i2)):
+                        hit = c
+            k = "fn=%s %s released before ares_free(%s)" % (f.name, lt, obj)
+            if hit is not None:
+                r.viol(k, f.name, f.loc(hit["ln"]), "%s fills %s from %s and can then release '%s' with a bare ares_free() while that member still holds the allocation: it is leaked (the object's "
+                       "destructor, or a release of the member, belongs in front)" % (f.name, lt, cn, obj))
+            else:
+                r.ok(k, f.loc(el))
+    r.info["filled_members_with_bare_free_in_function"] = n
+
+
 def run(prog, R, tier):
     R.assume("a store into a struct field transfers ownership iff the library releases objects through that field somewhere (inferred), plus 9 container link fields")
     files = None if tier == "thorough" else ANCHORED
@@ -664,5 +828,7 @@ def run(prog, R, tier):
     r_registered(prog, R)
     r_undo(prog, R)
     r_allocchk(prog, R)
+    r_borrowed(prog, R)
+    r_shellfree(prog, R)
     E = effects.Effects(prog)
     C01.r_once(prog, R, E, rid="R-C14-ONCE")
